@@ -5,7 +5,7 @@
 //
 // input (one case per line; all input is read before anything runs because
 // evolution::run polls stdin for a key press):
-//   run  <kind mep|ga|de> <strat std|alps|de|dealps> <mode step|whole|search> <seed>
+//   run  <kind mep|team|ga|de> <strat std|alps|de|dealps> <mode step|whole|search> <seed>
 //        <individuals> <min_individuals> <layers> <tournament> <mate_zone> <elitism 0|1>
 //        <age_gap> <p_same> <p_cross> <p_mutation> <brood> <generations> <cache 0|1>
 //        <eval h|v|r> <evalmod> <shake_every> [<max_stuck_time>]
@@ -127,6 +127,16 @@ template<> struct real_eva<i_mep> : evaluator<i_mep>
   fitness_t operator()(const i_mep &x) override
   {
     return {-std::fabs(static_cast<double>(x.active_symbols()) - 5.0 - g_salt)};
+  }
+};
+
+template<> struct real_eva<team<i_mep>> : evaluator<team<i_mep>>
+{
+  fitness_t operator()(const team<i_mep> &x) override
+  {
+    double a(0);
+    for (const auto &i : x) a += i.active_symbols();
+    return {-std::fabs(a - 12.0 - g_salt)};
   }
 };
 
@@ -253,6 +263,10 @@ template<> struct problem_of<i_mep>
     prob.sset.insert(factory.make("FLN", {0}));
     prob.sset.insert(factory.make("FABS", {0}));
   }
+};
+template<> struct problem_of<team<i_mep>> : problem_of<i_mep>
+{
+  problem_of() { prob.env.team.individuals = 3; }
 };
 template<> struct problem_of<i_ga>
 {
@@ -731,6 +745,11 @@ void run_case(const config &c)
   {
     if (c.strat == "std") dispatch_mode<i_mep, std_es, traced_std_es>(c, true);
     else dispatch_mode<i_mep, alps_es, alps_es>(c, false);
+  }
+  else if (c.kind == "team")
+  {
+    if (c.strat == "std") dispatch_mode<team<i_mep>, std_es, traced_std_es>(c, true);
+    else dispatch_mode<team<i_mep>, alps_es, alps_es>(c, false);
   }
   else if (c.kind == "ga")
   {
